@@ -93,6 +93,24 @@ fn ident(p: &table::Path) -> PathIdent {
     }
 }
 
+/// the same, with the attributes by value: what an Add-Path neighbour was last sent for the path
+#[derive(Clone, PartialEq, Eq, PartialOrd, Ord, Debug)]
+struct SentIdent {
+    source: usize,
+    attr: Vec<u8>,
+    nh: Option<IpAddr>,
+    local_id: u32,
+}
+
+fn sent_ident(p: &table::Path) -> SentIdent {
+    SentIdent {
+        source: Arc::as_ptr(&p.source) as usize,
+        attr: p.attr.iter().flat_map(|a| a.encode_to_bytes()).collect(),
+        nh: p.nexthop.map(|n| n.addr()),
+        local_id: p.local_path_id,
+    }
+}
+
 struct Session {
     source: Arc<table::Source>,
     counters: [Arc<AtomicU64>; 2],
@@ -119,8 +137,12 @@ pub fn check(c: &Case, mode: Mode) -> CheckResult {
     // consumers (C06)
     let mut best_consumer: [BTreeMap<String, Option<PathIdent>>; 2] = Default::default();
     let mut ap_consumer: [BTreeMap<String, Vec<PathIdent>>; 2] = Default::default();
+    // an Add-Path neighbour as export.rs keeps it: a path it already holds (same local path id)
+    // is refreshed only when the notification names it in replaced_path_id
+    let mut pp_consumer: [BTreeMap<String, BTreeMap<u32, SentIdent>>; 2] = Default::default();
     let mut dest_ids: [BTreeMap<String, u32>; 2] = Default::default();
     let mut skipped_note: [BTreeSet<String>; 2] = Default::default(); // prefixes with a skipped notification
+    let mut kept_note: [BTreeSet<String>; 2] = Default::default(); // prefixes where the per-path consumer kept a held path
     // per peer: has the RIB held a path of an *older* session of this peer since the
     // current session started? (witness for the known GR-reconnect counter finding)
     let mut old_gen_seen = vec![false; npeer];
@@ -283,6 +305,15 @@ pub fn check(c: &Case, mode: Mode) -> CheckResult {
             }
             if ch.any_changed {
                 ap_consumer[f].insert(key.clone(), ch.current_paths.iter().map(ident).collect());
+                let held = pp_consumer[f].entry(key.clone()).or_default();
+                held.retain(|id, _| ch.current_paths.iter().any(|p| p.local_path_id == *id));
+                for p in ch.current_paths.iter() {
+                    if !held.contains_key(&p.local_path_id) || ch.replaced_path_id == Some(p.local_path_id) {
+                        held.insert(p.local_path_id, sent_ident(p));
+                    } else {
+                        kept_note[f].insert(key.clone());
+                    }
+                }
             } else {
                 skipped_note[f].insert(key.clone());
             }
@@ -347,6 +378,7 @@ pub fn check(c: &Case, mode: Mode) -> CheckResult {
                 if !deferring[f] {
                     // fold of the change stream == snapshot
                     let snap_map: BTreeMap<String, Vec<PathIdent>> = snap.iter().map(|ch| (ch.net.to_string(), ch.current_paths.iter().map(ident).collect())).collect();
+                    let sent_map: BTreeMap<String, Vec<SentIdent>> = snap.iter().map(|ch| (ch.net.to_string(), ch.current_paths.iter().map(sent_ident).collect())).collect();
                     let keys: BTreeSet<String> = snap_map.keys().cloned().chain(best_consumer[f].keys().cloned()).chain(ap_consumer[f].keys().cloned()).collect();
                     for k in keys {
                         let truth = snap_map.get(&k).cloned().unwrap_or_default();
@@ -364,6 +396,17 @@ pub fn check(c: &Case, mode: Mode) -> CheckResult {
                         if a != tr {
                             return Err(Failure::new("fold-addpath", format!("step {step} {op:?}: a consumer that applies only any_changed notifications holds {} paths for {k}, the RIB has {} exportable paths (or different ones)", a.len(), tr.len()))
                                 .with("op", op_tag(op)));
+                        }
+                        let mut pp: Vec<SentIdent> = pp_consumer[f].get(&k).map(|m| m.values().cloned().collect()).unwrap_or_default();
+                        pp.sort();
+                        let mut tr: Vec<SentIdent> = sent_map.get(&k).cloned().unwrap_or_default();
+                        tr.sort();
+                        if pp != tr {
+                            return Err(Failure::new("fold-addpath-per-path", format!("step {step} {op:?}: an Add-Path consumer that refreshes a path it already holds only when replaced_path_id names it holds {pp:?} for {k}, the RIB's exportable paths are {tr:?}"))
+                                .with("op", op_tag(op)));
+                        }
+                        if kept_note[f].contains(&k) {
+                            info = info.class("compared-after-path-kept-without-refresh");
                         }
                         if skipped_note[f].contains(&k) {
                             info.nontrivial = true;
